@@ -318,23 +318,12 @@ def run(chk):
     txt = unparse(comb.node)
     r2.require("f'{prefix}-{s}'" in txt and "'__'.join(combo)" in txt, f"{comb.key}|key-grammar-writer", comb.where(), "candidate keys must be written as `<prefix>-<seasons>` joined by `__`")
     pr = method(chk, dm, "_predict")
-    from engine.pattern import PatCtx
-    ok_loop = False
-    for loop in [n for n in ast.walk(pr.node) if isinstance(n, ast.For)]:
-        it = unparse(loop.iter)
-        if it in ("self.params.submodels.keys()", "self.params.submodels", "list(self.params.submodels)", "list(self.params.submodels.keys())") and isinstance(loop.target, ast.Name):
-            K = loop.target.id
-        elif it == "self.params.submodels.items()" and isinstance(loop.target, ast.Tuple) and len(loop.target.elts) == 2 and isinstance(loop.target.elts[0], ast.Name):
-            K = loop.target.elts[0].id
-        else:
-            continue
-        lp = PatCtx(pr.node)
-        lp.root = loop  # search inside the loop, resolve locals through the whole function
-        # rows are routed with the stored key, and the per-segment frame built from those rows is labelled with the same key
-        ok_loop = lp.has(f"_SEG_ = self._meter_segment({K}, _DF_)") and lp.has(f"_M_['model_split'] = {K}") and lp.has("_M_ = pd.DataFrame(data=__, index=_SEG_.index)", bind=False)
-        if ok_loop:
-            break
-    r2.require(ok_loop, f"{pr.key}|iterates-stored-keys", pr.where(), "_predict must iterate the stored sub-model keys, route rows with that key and label the frame built on those rows with it")
+    # interpreted (rules/daily_predict.py): every stored key predicts exactly its own segment of the cleaned frame, with its own
+    # sub-model, and labels those rows with that key
+    from rules.daily_predict import judge_predict, predict_outcomes
+    loop_msgs = [m for o in predict_outcomes(chk, pr.cls or dm, pr) for ob, m in judge_predict(o) if ob == "rows" and ("key" in m or "segment" in m)]
+    ok_loop = not loop_msgs
+    r2.require(ok_loop, f"{pr.key}|iterates-stored-keys", pr.where(), "_predict must iterate the stored sub-model keys, route rows with that key and label the frame built on those rows with it" + (": " + loop_msgs[0] if loop_msgs else ""))
     idf = method(chk, dm, "_initialize_data")
     t = unparse(idf.node)
     r2.require("meter_data['season'] = meter_data.index.month.map(self.settings.season._num_dict)" in t and "meter_data['day_of_week'] = meter_data.index.dayofweek + 1" in t,
